@@ -491,32 +491,59 @@ theorem vector_result_allocatable (d l : List Int) :
   simp only [ctxVec, List.length_replicate, Nat.min_self, List.take_length, hd, List.append_nil, List.isEmpty_iff] at h
   run_simp [ctxOfVector, St.ctx, St.vec, Ctx.empty, h]
 
+/-- **context size is the product of the extents** (table theorem over the regenerated probe of
+    wrapc.set_fmt_fields): at ranks 1, 2 and 3, for a result and for a `**` out argument alike,
+    `shape[i]` is assigned the i-th declared dimension and `size` multiplies every `shape[i]` once -/
+theorem ctx_probe_canonical :
+    Gen.FStmts.ctxProbe.all (fun r => r.2.2.1 == (List.range r.2.1).map (fun i => (i, i)) &&
+      r.2.2.2 == List.range r.2.1) = true ∧
+    ([1, 2, 3].all fun k => (probeRow k).isSome) = true := by decide +kernel
+
+/-- hence, for all extents: `ctx->shape` holds the declared dimensions and `ctx->size` their product -/
+theorem ctx_size_is_product (sh : List Nat) (h : 1 ≤ sh.length ∧ sh.length ≤ 3) :
+    ctxShapeOf sh = some sh ∧ ctxSizeOf sh = some (prod sh) := by
+  match sh, h with
+  | [a], _ => exact ⟨by simp [ctxShapeOf, probeRow, Gen.FStmts.ctxProbe, List.find?, List.range, List.range.loop],
+                by simp [ctxSizeOf, ctxShapeOf, probeRow, Gen.FStmts.ctxProbe, List.find?, List.range, List.range.loop, prod]⟩
+  | [a, b], _ => exact ⟨by simp [ctxShapeOf, probeRow, Gen.FStmts.ctxProbe, List.find?, List.range, List.range.loop],
+                by simp [ctxSizeOf, ctxShapeOf, probeRow, Gen.FStmts.ctxProbe, List.find?, List.range, List.range.loop, prod]⟩
+  | [a, b, c], _ => exact ⟨by simp [ctxShapeOf, probeRow, Gen.FStmts.ctxProbe, List.find?, List.range, List.range.loop],
+                by simp [ctxSizeOf, ctxShapeOf, probeRow, Gen.FStmts.ctxProbe, List.find?, List.range, List.range.loop, prod]⟩
+  | [], h => exact absurd h.1 (by simp)
+  | _ :: _ :: _ :: _ :: _, h => exact absurd h.2 (by simp)
+
 /-- `T **a +intent(out)+dimension(sh)`: the Fortran pointer designates the library's address with the
     declared extents (the library memory must hold at least `prod sh` elements) -/
-theorem ptrptr_out (sh : List Nat) (addr : Nat) (elems : List Int) (h : prod sh ≤ elems.length) (a0 : Val) :
+theorem ptrptr_out (sh : List Nat) (hr : 1 ≤ sh.length ∧ sh.length ≤ 3) (addr : Nat) (elems : List Int)
+    (h : prod sh ≤ elems.length) (a0 : Val) :
     runArgWith [(14, .arr (sh.map Int.ofNat))] Kind.ptrPtrOut.fspec (Kind.ptrPtrOut.cspec false) false a0
         (.arg fun _ => .ref addr elems)
       = .ok ⟨some .null, .ref addr (elems.take (prod sh)), 0⟩ := by
-  run_simp [ctxOfPointer, St.ctx, St.shape, Ctx.empty, List.foldl, h]
+  obtain ⟨h1, h2⟩ := ctx_size_is_product sh hr
+  run_simp [ctxOfPointer, St.ctx, St.shape, Ctx.empty, List.foldl, h, h1, h2]
 
 /-- `T *f() +deref(pointer)+dimension(sh)`: the Fortran pointer result designates the returned address
     with the declared extents -/
-theorem result_pointer (sh : List Nat) (addr : Nat) (elems : List Int) (h : prod sh ≤ elems.length) (r0 : Val) :
+theorem result_pointer (sh : List Nat) (hr : 1 ≤ sh.length ∧ sh.length ≤ 3) (addr : Nat) (elems : List Int)
+    (h : prod sh ≤ elems.length) (r0 : Val) :
     runArgWith [(14, .arr (sh.map Int.ofNat))] Kind.resultPointer.fspec (Kind.resultPointer.cspec false) false r0
         (.result (.ref addr elems))
       = .ok ⟨none, .ref addr (elems.take (prod sh)), 0⟩ := by
-  run_simp [ctxOfPointer, St.ctx, St.shape, Ctx.empty, List.foldl, h]
+  obtain ⟨h1, h2⟩ := ctx_size_is_product sh hr
+  run_simp [ctxOfPointer, St.ctx, St.shape, Ctx.empty, List.foldl, h, h1, h2]
 
 /-- `T *f() +deref(allocatable)+dimension(sh)`: a fresh array of the declared extents holding the
     first `prod sh` elements found at the returned address -/
-theorem result_allocatable (sh : List Nat) (addr : Nat) (elems : List Int) (h : prod sh ≤ elems.length) (r0 : Val) :
+theorem result_allocatable (sh : List Nat) (hr : 1 ≤ sh.length ∧ sh.length ≤ 3) (addr : Nat) (elems : List Int)
+    (h : prod sh ≤ elems.length) (r0 : Val) :
     runArgWith [(14, .arr (sh.map Int.ofNat))] Kind.resultAlloc.fspec (Kind.resultAlloc.cspec false) false r0
         (.result (.ref addr elems))
       = .ok ⟨none, .arr (elems.take (prod sh)), 0⟩ := by
   have hd : (List.replicate (prod sh) (0 : Int)).drop (prod sh) = [] := List.drop_eq_nil_of_le (by simp)
+  obtain ⟨h1, h2⟩ := ctx_size_is_product sh hr
   by_cases h0 : prod sh = 0
-  · run_simp [ctxOfPointer, St.ctx, St.shape, Ctx.empty, List.foldl, copyElems, h0]
-  · run_simp [ctxOfPointer, St.ctx, St.shape, Ctx.empty, List.foldl, copyElems, h0, h, hd]
+  · run_simp [ctxOfPointer, St.ctx, St.shape, Ctx.empty, List.foldl, copyElems, h0, h1, h2]
+  · run_simp [ctxOfPointer, St.ctx, St.shape, Ctx.empty, List.foldl, copyElems, h0, h, hd, h1, h2]
 
 /-- `char **names +intent(in)` from `character(len=L) :: names(n)`: element `i` is the text of slice
     `i` without trailing blanks, NUL terminated, in its own block; all `n + 1` blocks are released -/
